@@ -3,7 +3,7 @@
    assignment [[0;3];[0;2;3]]: two outputs fed by two sub-parts, output 1 empty in front of
    the non-empty outputs 2 and 3, so compaction moves 2 -> 1 and 3 -> 2), started over a
    prior dataset with debris and overwrite=True, in the three temp-directory modes. *)
-From Coq Require Import ZArith List Bool Arith String.
+From Coq Require Import ZArith List Bool Arith String Permutation.
 From SP Require Import Harness Model.FS Model.PackFS Model.Retry Spec.PackSpec.
 Import ListNotations.
 Local Open Scope string_scope.
@@ -93,7 +93,7 @@ Definition all_kinds : list fault :=
   [FRaise; FNotFound; FAfter; FPartial 0; FPartial 1; FStale 0; FStale 1; FLie].
 
 (* every single fault of every kind -- including a lying existence check -- at every one of
-   the first 130 filesystem calls (the fault-free run makes 76 / 84 / 84 of them) of setup M,
+   the first 130 filesystem calls (the fault-free run makes 75 of them) of setup M,
    retry budget 3: the call raises or leaves exactly the fault-free tree and parts *)
 Lemma single_faults_M_inside :
   forallb (fun pos => forallb (fun ft => outcome_ok 3 (single pos ft) TInside) all_kinds)
@@ -148,3 +148,64 @@ Proof.
   revert E1 E2. vm_compute. intros E1 E2.
   injection E1 as _ E1. injection E2 as _ E2. subst f1 s. split; reflexivity.
 Qed.
+
+(* ------------------------------------------------------------------ non-vacuity of C10_layout *)
+(* the premises of the general theorem hold for setup M in the default and the flat
+   external mode (prior dataset with debris, overwrite) *)
+Lemma premises_M_inside :
+  prior_ok priorM (cfgM TInside) /\ tmp_separate (cfgM TInside) /\ wf_asg 4 asgM /\
+  wf_orders (cfgM TInside) asgM /\ nonempty_outputs 4 asgM <> [].
+Proof.
+  split; [|split; [exact I|split; [|split; [|discriminate]]]].
+  - unfold prior_ok. simpl. split; [reflexivity|]. split; [discriminate|].
+    split; [intros q H; destruct q; discriminate|].
+    split; [discriminate|]. split; [exact I|discriminate].
+  - intros outs N Ho HN. simpl in Ho.
+    destruct Ho as [<-|[<-|[]]]; simpl in HN; repeat (destruct HN as [<-|HN]; [repeat constructor|]); contradiction.
+  - split; simpl.
+    + apply perm_swap.
+    + apply Permutation_sym. apply (Permutation_rev [0; 1; 2; 3]).
+Qed.
+
+Lemma premises_M_flat :
+  prior_ok priorM (cfgM (TExternal [])) /\ tmp_separate (cfgM (TExternal [])) /\ wf_asg 4 asgM /\
+  wf_orders (cfgM (TExternal [])) asgM /\ nonempty_outputs 4 asgM <> [].
+Proof.
+  destruct premises_M_inside as (_ & _ & Ha & Ho & Hn).
+  split; [|split; [|split; [exact Ha|split; [exact Ho|exact Hn]]]].
+  - unfold prior_ok. simpl. split; [reflexivity|]. split; [discriminate|].
+    split; [intros q H; destruct q; discriminate|].
+    split; [discriminate|]. split; [|discriminate]. split.
+    + intros q H. destruct q; discriminate.
+    + intros N q H. destruct q as [|a q]; [discriminate|].
+      unfold is_prefix in H. simpl in H. destruct a; try discriminate. reflexivity.
+  - simpl. split; [reflexivity|]. intro N. reflexivity.
+Qed.
+
+(* ------------------------------------------------------------------ recovery after an aborted run *)
+(* With a retry budget of ONE attempt every single fault aborts the run at that point, leaving
+   whatever the interrupted call left.  From every such aborted tree (every position, every
+   fault kind incl. partial effects) a fault-free repeat with overwrite=True ends in exactly
+   the fault-free tree: nothing of the aborted run survives, inside or outside the dataset. *)
+Definition recover_ok (K : nat) (sched : list (option fault)) (tm : tmpmode) : bool :=
+  match packF K sched priorM (cfgM tm) asgM with
+  | Err s => final_is (pack (st_fs s) (cfgM tm) asgM) (keepM ++ datasetM)
+  | OK _ _ => true
+  end.
+
+Definition aborts (K : nat) (sched : list (option fault)) (tm : tmpmode) : bool :=
+  match packF K sched priorM (cfgM tm) asgM with Err _ => true | OK _ _ => false end.
+
+Lemma recover_M_inside :
+  forallb (fun pos => forallb (fun ft => recover_ok 1 (single pos ft) TInside) all_kinds) (seq 0 130) = true.
+Proof. vm_compute. reflexivity. Qed.
+
+Lemma recover_M_flat :
+  forallb (fun pos => forallb (fun ft => recover_ok 1 (single pos ft) (TExternal [])) all_kinds) (seq 0 130) = true.
+Proof. vm_compute. reflexivity. Qed.
+
+(* and these runs do abort: at every one of the 75 calls a raising fault ends the run *)
+Lemma aborts_M :
+  forallb (fun pos => aborts 1 (single pos FRaise) TInside) (seq 0 75) = true /\
+  forallb (fun pos => aborts 1 (single pos FRaise) (TExternal [])) (seq 0 75) = true.
+Proof. split; vm_compute; reflexivity. Qed.
